@@ -81,6 +81,9 @@ func (C02) Gen(rt *rapid.T, tier string) any {
 	if pick(rt, 2000, "eggbomb") < 3 && os.Getenv("VERIF_X_ONLY") == "" || os.Getenv("VERIF_X_ONLY") == "eggbomb" {
 		kind = "eggbomb"
 	}
+	if chance(rt, 2, "workspace") && os.Getenv("VERIF_X_ONLY") == "" || os.Getenv("VERIF_X_ONLY") == "workspace" {
+		kind = "workspace"
+	}
 	if mode == "sim" && chance(rt, 6, "compfault") && os.Getenv("VERIF_X_ONLY") == "" || os.Getenv("VERIF_X_ONLY") == "companion-fault" {
 		kind = "companion-fault"
 	}
@@ -185,6 +188,29 @@ func (C02) Gen(rt *rapid.T, tier string) any {
 				victim = len(p.files) - 1
 			}
 		}
+	case "workspace":
+		// structured input: a Cargo.toml member that inherits from its workspace
+		// (version.workspace = true), with the workspace root present, absent, or at the scan root
+		if has(enabled, "rust/cargotoml") {
+			i := p.next
+			p.next++
+			top := oneOf(rt, []string{"third_party", "srv/ws", "home/user/src/mono"}, "ws.top")
+			member := fmt.Sprintf("%s/crates/orphan%d", top, i)
+			inherit := oneOf(rt, []string{"version.workspace = true", "version = { workspace = true }"}, "ws.syntax")
+			switch oneOf(rt, []string{"absent", "absent", "above", "scanroot", "no-version"}, "ws.root") {
+			case "above":
+				p.add(FileSpec{Path: top + "/Cargo.toml", Src: Src{Text: "[workspace]\nmembers = [\"crates/*\"]\n\n[workspace.package]\nversion = \"1.2.3\"\n"}})
+			case "scanroot":
+				p.add(FileSpec{Path: "Cargo.toml", Src: Src{Text: "[workspace]\nmembers = [\"*\"]\n\n[workspace.package]\nversion = \"4.5.6\"\n"}})
+			case "no-version":
+				p.add(FileSpec{Path: top + "/Cargo.toml", Src: Src{Text: "[workspace]\nmembers = [\"crates/*\"]\n"}})
+			}
+			if p.add(FileSpec{Path: member + "/Cargo.toml", Src: Src{Text: fmt.Sprintf("[package]\nname = \"orphan%d\"\n%s\nedition = \"2021\"\n\n[dependencies]\nfutures = \"0.3\"\n", i, inherit)}}) {
+				victim = len(p.files) - 1
+				p.dirs[top] = true
+				avoid["rust/cargotoml"] = true
+			}
+		}
 	case "eggbomb":
 		// an .egg whose metadata entry inflates beyond the extractor's size limit (100 MiB) as one
 		// long header line: a tiny archive, an entry the extractor must refuse by its uncompressed size
@@ -215,6 +241,10 @@ func (C02) Gen(rt *rapid.T, tier string) any {
 		if chance(rt, 50, "elf.ko") {
 			e := &ElfSpec{Section: ".modinfo", Compressed: chance(rt, 85, "elf.comp"), InflateMiB: mib, Fill: oneOf(rt, []int{'a', 0}, "elf.fill"),
 				Text: "name=bomb\x00version=1.0\x00license=GPL\x00srcversion=ABCDEF\x00depends=\x00vermagic=6.1.0 SMP\x00"}
+			if chance(rt, 35, "elf.multi") {
+				// many section headers of that name sharing one stream that stays below any per-section limit
+				e.Compressed, e.InflateMiB, e.Fill, e.Repeat = true, 15, 'a', 16+pick(rt, 49, "elf.rep")
+			}
 			if chance(rt, 15, "elf.lie") {
 				e.ChSize = oneOf(rt, []int64{1, 1 << 20, 1 << 32, 1 << 40}, "elf.chsize")
 			}
@@ -415,7 +445,7 @@ func (C02) Gen(rt *rapid.T, tier string) any {
 	}
 	if !v.Src.HasOps() && (kind != "include" || rapid.Bool().Draw(rt, "incops")) && kind != "foreign" && (kind != "zipbomb" || rapid.Bool().Draw(rt, "zbops")) &&
 		kind != "symlink" && (kind != "nostat" || rapid.Bool().Draw(rt, "nsops")) && !v.CorruptFifo &&
-		kind != "companion-fault" && ((kind != "elfbomb" && kind != "containerd-graph" && kind != "eggbomb") || chance(rt, 20, "structops")) {
+		kind != "companion-fault" && (kind != "workspace" || chance(rt, 30, "wsops")) && ((kind != "elfbomb" && kind != "containerd-graph" && kind != "eggbomb") || chance(rt, 20, "structops")) {
 		v.Src.Ops = genOps(rt, vb, "op")
 	}
 	if kind == "foreign" && rapid.Bool().Draw(rt, "fops") {
